@@ -376,6 +376,23 @@ func runRelay(c *harness.Ctx) {
 			c.Feature("complete-forwarding-checked")
 		}
 	}
+	// a side that ended with a reset may have lost bytes on its way to the relay;
+	// what the relay did take from it before it saw the reset was forwarded
+	// like everything else: it must come out on the healthy side
+	if f := firstEnd; f != nil && f.endHow == "rst" {
+		other, taken := B, la.AB.Consumed
+		if f == B {
+			other, taken = A, lb.AB.Consumed
+		}
+		otherHealthy := !other.failed && other.stopReadAfter < 0 && other.endHow == "stay" && other.conn.Out().Written == 0
+		if otherHealthy && other.got != taken {
+			c.Violate("C19/bytes-lost-at-end", "%s ended with a reset after the relay had read %d bytes from it; %s was healthy and silent, but only %d of them came out before the relay tore the connection down", f.name, taken, other.name, other.got)
+			return
+		}
+		if otherHealthy {
+			c.Feature("forwarding-of-bytes-read-before-a-reset-checked")
+		}
+	}
 	if A.endHow != "rst" && B.endHow != "rst" && ret != nil && !A.failed && !B.failed && false {
 		c.Violate("C19/spurious-error", "both sides ended cleanly, copyLoop returned %v", ret)
 	}
